@@ -1,4 +1,5 @@
 import XdslProofs.Lemmas.RiscVFrame
+import XdslProofs.C22FrameWalk
 /-!
 # C22 — callee-saved registers and the stack pointer
 
@@ -66,6 +67,183 @@ theorem frame_sound (saved : List Reg) (body : List Instr) (s : St)
     rw [get_set_ne _ _ _ _ hr'.2, hv r hr]
     exact get_set_ne _ _ _ _ hr'.2
   · simp [hmu]
+
+/-! ## every callee-saved register, for the list the pass computes
+
+`frame_sound` is about the registers in `saved`.  The pass computes `saved` from the function
+(`FrameWalk.usedCalleeSaved`, XdslProofs/C22FrameWalk.lean).  For a straight-line body the two fit together:
+a callee-saved register that is not in the list is not written by the body at all. -/
+
+/-- the register a (non-control) instruction writes -/
+def Instr.writes : Instr → Option Reg
+  | .r _ rd _ _ => some rd
+  | .i _ rd _ _ => some rd
+  | .sh _ rd _ _ => some rd
+  | .li rd _ => some rd
+  | .mv rd _ => some rd
+  | .lw rd _ _ => some rd
+  | _ => none
+
+theorem exec1_preserves {i : Instr} {s s' : St} {r : Reg} (h : exec1 i s = some s')
+    (hw : i.writes ≠ some r) : s'.get r = s.get r := by
+  cases i with
+  | r op rd a b =>
+    simp only [exec1, Option.some.injEq] at h; subst h
+    exact get_set_ne _ _ _ _ (fun e => hw (by simp [Instr.writes, e]))
+  | i op rd a imm =>
+    simp only [exec1, Option.some.injEq] at h; subst h
+    exact get_set_ne _ _ _ _ (fun e => hw (by simp [Instr.writes, e]))
+  | sh op rd a n =>
+    simp only [exec1, Option.some.injEq] at h; subst h
+    exact get_set_ne _ _ _ _ (fun e => hw (by simp [Instr.writes, e]))
+  | li rd imm =>
+    simp only [exec1, Option.some.injEq] at h; subst h
+    exact get_set_ne _ _ _ _ (fun e => hw (by simp [Instr.writes, e]))
+  | mv rd a =>
+    simp only [exec1, Option.some.injEq] at h; subst h
+    exact get_set_ne _ _ _ _ (fun e => hw (by simp [Instr.writes, e]))
+  | lw rd base off =>
+    simp only [exec1] at h
+    split at h
+    · simp only [Option.some.injEq] at h; subst h
+      exact get_set_ne _ _ _ _ (fun e => hw (by simp [Instr.writes, e]))
+    · simp at h
+  | sw v base off =>
+    simp only [exec1] at h
+    split at h
+    · simp only [Option.some.injEq] at h; subst h; rfl
+    · simp at h
+  | br op a b t => simp only [exec1, Option.some.injEq] at h; subst h; rfl
+  | j t => simp only [exec1, Option.some.injEq] at h; subst h; rfl
+  | jal t => simp only [exec1, Option.some.injEq] at h; subst h; rfl
+  | ret => simp only [exec1, Option.some.injEq] at h; subst h; rfl
+  | nop => simp only [exec1, Option.some.injEq] at h; subst h; rfl
+
+/-- a register no instruction of the list writes keeps its value -/
+theorem exec_preserves (r : Reg) : ∀ (is : List Instr) (s s' : St), exec is s = some s' →
+    (∀ i ∈ is, i.writes ≠ some r) → s'.get r = s.get r := by
+  intro is
+  induction is with
+  | nil => intro s s' h _; simp [exec] at h; subst h; rfl
+  | cons i is ih =>
+    intro s s' h hw
+    rw [exec_cons] at h
+    cases h1 : exec1 i s with
+    | none => simp [h1, Option.bind] at h
+    | some s1 =>
+      simp only [h1, Option.bind] at h
+      rw [ih s1 s' h (fun x hx => hw x (List.mem_cons_of_mem _ hx)),
+        exec1_preserves h1 (hw i List.mem_cons_self)]
+
+/-- the body as `func.walk()` sees it: one op per instruction, its result register -/
+def nodeOf (i : Instr) : FrameWalk.Node := .op false i.writes.toList []
+
+/-- `used_callee_preserved_registers` of a straight-line body -/
+def savedOf (body : List Instr) : List Reg := FrameWalk.usedCalleeSaved (body.map nodeOf)
+
+theorem writtenIn_nodeOf {body : List Instr} {i : Instr} {r : Reg} (hi : i ∈ body) (hw : i.writes = some r) :
+    FrameWalk.WrittenIn (body.map nodeOf) r := by
+  induction body with
+  | nil => simp at hi
+  | cons x xs ih =>
+    rcases List.mem_cons.mp hi with h | h
+    · subst h
+      exact .here (by simp [hw])
+    · exact .later (ih h)
+
+theorem savedOf_complete {body : List Instr} {i : Instr} {r : Reg} (hi : i ∈ body) (hw : i.writes = some r)
+    (hr : FrameWalk.isCalleeSaved r = true) : r ∈ savedOf body :=
+  (FrameWalk.usedCalleeSaved_spec _ _).mpr ⟨writtenIn_nodeOf hi hw, hr⟩
+
+theorem isCalleeSaved_ne {r : Reg} (h : FrameWalk.isCalleeSaved r = true) : r ≠ 0 ∧ r ≠ SP := by
+  constructor
+  · rintro rfl; revert h; decide
+  · rintro rfl; revert h; decide
+
+/-- the 24 callee-saved register codes -/
+def allCalleeSaved : List Nat := FrameWalk.sRegs ++ FrameWalk.sRegs.map (· + 100)
+
+theorem isCalleeSaved_mem {r : Nat} (h : FrameWalk.isCalleeSaved r = true) : r ∈ allCalleeSaved := by
+  unfold FrameWalk.isCalleeSaved at h
+  rcases (Bool.or_eq_true _ _).mp h with h | h
+  · have h' : r ∈ FrameWalk.sRegs := by simpa using h
+    exact List.mem_append.mpr (.inl h')
+  · obtain ⟨h1, h2⟩ := (Bool.and_eq_true _ _).mp h
+    have h100 : 100 ≤ r := of_decide_eq_true h1
+    have h2' : r - 100 ∈ FrameWalk.sRegs := by simpa using h2
+    exact List.mem_append.mpr (.inr (List.mem_map.mpr ⟨r - 100, h2', by omega⟩))
+
+theorem savedOf_length (body : List Instr) : (savedOf body).length ≤ 511 := by
+  have h := List.Nodup.length_le_of_subset (FrameWalk.usedCalleeSaved_nodup (body.map nodeOf))
+    (l₂ := allCalleeSaved) (fun r hr => isCalleeSaved_mem ((FrameWalk.usedCalleeSaved_spec _ _).mp hr).2)
+  have : allCalleeSaved.length = 24 := by decide
+  unfold savedOf
+  omega
+
+theorem frame_writes {saved : List Reg} : ∀ (k : Nat) (i : Instr), i ∈ frameStores saved k → i.writes = none := by
+  induction saved with
+  | nil => intro k i h; simp [frameStores] at h
+  | cons x xs ih =>
+    intro k i h
+    simp only [frameStores, List.mem_cons] at h
+    rcases h with h | h
+    · subst h; rfl
+    · exact ih _ i h
+
+theorem frameLoads_writes {saved : List Reg} : ∀ (k : Nat) (i : Instr) (r : Reg), i ∈ frameLoads saved k →
+    i.writes = some r → r ∈ saved := by
+  induction saved with
+  | nil => intro k i r h; simp [frameLoads] at h
+  | cons x xs ih =>
+    intro k i r h hw
+    simp only [frameLoads, List.mem_cons] at h
+    rcases h with h | h
+    · subst h
+      simp [Instr.writes] at hw
+      simp [hw]
+    · exact List.mem_cons_of_mem _ (ih _ i r h hw)
+
+/-- **every callee-saved register and sp are restored** (straight-line body, the list the pass computes).
+For every instruction list `body`, every entry state with aligned `sp`: if the body, started after the prologue
+for `savedOf body`, terminates with the same `sp` and unchanged frame words, then the whole function body
+terminates with `sp` and ALL of s0–s11 at their entry values — the saved ones through the frame, the others
+because nothing writes them.  (Bodies with loops: validated by execution, stage-wise and on the emitted code.) -/
+theorem frame_restores_every_callee_saved (body : List Instr) (s : St) (hal : aligned (s.get SP) = true) :
+    ∃ s1, exec (prologue (savedOf body)) s = some s1 ∧
+      ∀ s2, exec body s1 = some s2 → s2.get SP = s1.get SP →
+        (∀ j, j < (savedOf body).length →
+          s2.mem (slotAddr (s1.get SP) j) = s1.mem (slotAddr (s1.get SP) j)) →
+        ∃ s3, exec (prologue (savedOf body) ++ body ++ epilogue (savedOf body)) s = some s3 ∧
+          s3.get SP = s.get SP ∧ ∀ r ∈ FrameWalk.sRegs, s3.get r = s.get r := by
+  have hnd : (savedOf body).Nodup := FrameWalk.usedCalleeSaved_nodup _
+  have hreg : ∀ r ∈ savedOf body, r ≠ 0 ∧ r ≠ SP := fun r hr =>
+    isCalleeSaved_ne ((FrameWalk.usedCalleeSaved_spec _ _).mp hr).2
+  obtain ⟨s1, hp, hrest⟩ := frame_sound (savedOf body) body s hnd hreg (savedOf_length body) hal
+  refine ⟨s1, hp, ?_⟩
+  intro s2 hb hsp hfr
+  obtain ⟨s3, he, hsp3, hsaved, _⟩ := hrest s2 hb hsp hfr
+  refine ⟨s3, he, hsp3, ?_⟩
+  intro r hr
+  by_cases hin : r ∈ savedOf body
+  · exact hsaved r hin
+  · -- not saved: no instruction of prologue ++ body ++ epilogue writes r
+    have hcs : FrameWalk.isCalleeSaved r = true := by
+      simp [FrameWalk.isCalleeSaved, hr]
+    have hne := isCalleeSaved_ne hcs
+    apply exec_preserves r _ s s3 he
+    intro i hi hw
+    simp only [List.mem_append] at hi
+    rcases hi with (hi | hi) | hi
+    · -- prologue: addi sp + stores
+      simp only [prologue, List.mem_cons] at hi
+      rcases hi with hi | hi
+      · subst hi; simp [Instr.writes] at hw; exact hne.2 hw.symm
+      · rw [frame_writes 0 i hi] at hw; simp at hw
+    · exact hin (savedOf_complete hi hw hcs)
+    · simp only [epilogue, List.mem_append, List.mem_singleton] at hi
+      rcases hi with hi | hi
+      · exact hin (frameLoads_writes 0 i r hi hw)
+      · subst hi; simp [Instr.writes] at hw; exact hne.2 hw.symm
 
 /-! ## the program-counter machine runs straight-line code as `exec`
 
